@@ -74,7 +74,7 @@ func InternalError(format string, a ...interface{}) {
 
 // PanicSite names the innermost frame of a controlled thread's panic stack
 // that belongs to the code under test or to the harness (frames of the
-// runtime and of the shim packages are skipped, so that e.g. "negative
+// runtime, other libraries and the shim packages are skipped, so that e.g. "negative
 // WaitGroup counter" is attributed to the repository function that called
 // Done).
 func PanicSite(stack string) string {
@@ -82,7 +82,7 @@ func PanicSite(stack string) string {
 		if strings.HasPrefix(l, "\t") || strings.HasPrefix(l, "goroutine ") || l == "" {
 			continue
 		}
-		if strings.HasPrefix(l, "runtime") || strings.HasPrefix(l, "panic(") || strings.Contains(l, "/vshim/") || strings.HasPrefix(l, "sync.") || strings.HasPrefix(l, "sync/atomic.") {
+		if strings.Contains(l, "/vshim/") || !(strings.Contains(l, "github.com/dappledger/AnnChain/") || strings.HasPrefix(l, "verif/")) {
 			continue
 		}
 		fn := l
